@@ -21,13 +21,14 @@ import (
 )
 
 type replay struct {
-	Family string            `json:"family"`
-	Flows  map[string]string `json:"flows"`
-	Quotas map[string]string `json:"quotas,omitempty"`
-	Plan   map[string]string `json:"plan"`
-	URL    string            `json:"url"`
-	Want   []string          `json:"expected_events"`
-	Got    []string          `json:"observed_events"`
+	CurrentType bool              `json:"probes_report_current_stream_type"`
+	Family      string            `json:"family"`
+	Flows       map[string]string `json:"flows"`
+	Quotas      map[string]string `json:"quotas,omitempty"`
+	Plan        map[string]string `json:"plan"`
+	URL         string            `json:"url"`
+	Want        []string          `json:"expected_events"`
+	Got         []string          `json:"observed_events"`
 }
 
 var procDir string
@@ -155,6 +156,7 @@ func TestCheck(t *testing.T) {
 		if err != nil {
 			t.Fatal(err)
 		}
+		probe.ReportCurrentType = rp.CurrentType
 		evs, v, rv := runTxn(s, rp.URL, rp.Plan, true)
 		fmt.Printf("family %s url %s plan %v\nexpected %v\nobserved %v\nverdict %s / %s\n", rp.Family, rp.URL, rp.Plan, rp.Want, evs, v, rv)
 		for n, y := range rp.Flows {
@@ -267,6 +269,15 @@ func firstWords(s string) string {
 // check runs one transaction (request, then its response unless answered early) on a
 // single-flow engine and compares the events with the reference.
 func check(r *mc.Run, family string, files eng.Files, s *streams.Stream, url string, plan map[string]string, req, res fg.Graph) {
+	// both ways a processor may describe its output: StreamTypeAny, or the current stream type
+	for _, cur := range []bool{false, true} {
+		probe.ReportCurrentType = cur
+		check1(r, family, files, s, url, plan, req, res)
+	}
+	probe.ReportCurrentType = false
+}
+
+func check1(r *mc.Run, family string, files eng.Files, s *streams.Stream, url string, plan map[string]string, req, res fg.Graph) {
 	out := planOut(plan, "f")
 	wantReq, early := fg.WalkReq(req, out)
 	var wantRes []string
@@ -294,7 +305,7 @@ func check(r *mc.Run, family string, files eng.Files, s *streams.Stream, url str
 	}
 	fail := func(clause, what string, want, got []string) {
 		r.Violation(clause, fmt.Sprintf("family %s request graph {%s} response graph {%s} input %v: %s: expected %v, observed %v", family, req, res, plan, what, want, got),
-			replay{family, files.Flows, files.Quotas, plan, url, append(append([]string{}, wReq...), wRes...), probeStrings(evs)})
+			replay{probe.ReportCurrentType, family, files.Flows, files.Quotas, plan, url, append(append([]string{}, wReq...), wRes...), probeStrings(evs)})
 	}
 	if v.Err != "" || rv.Err != "" {
 		fail("ERROR", "the engine returned an error: "+v.Err+rv.Err, nil, nil)
@@ -454,11 +465,19 @@ func familyC(t *testing.T, r *mc.Run) {
 //   - on responses the user flows, and the system flows, run in the reverse of their
 //     request order.
 func checkC(r *mc.Run, files eng.Files, s *streams.Stream, url string, plan map[string]string, fl []flowSpec, qi int) {
+	for _, cur := range []bool{false, true} {
+		probe.ReportCurrentType = cur
+		checkC1(r, files, s, url, plan, fl, qi)
+	}
+	probe.ReportCurrentType = false
+}
+
+func checkC1(r *mc.Run, files eng.Files, s *streams.Stream, url string, plan map[string]string, fl []flowSpec, qi int) {
 	evs, v, rv := runTxn(s, url, plan, true)
 	r.Add("evaluations", 1)
 	fail := func(clause, what string) {
 		r.Violation(clause, fmt.Sprintf("family C flows %v quota set %d input %v: %s; events %v", names(fl), qi, plan, what, probeStrings(evs)),
-			replay{"C", files.Flows, files.Quotas, plan, url, nil, probeStrings(evs)})
+			replay{probe.ReportCurrentType, "C", files.Flows, files.Quotas, plan, url, nil, probeStrings(evs)})
 	}
 	if v.Err != "" || rv.Err != "" {
 		fail("ERROR:family-C", "engine error "+v.Err+rv.Err)
